@@ -750,8 +750,149 @@ fn api_subpacket_case(t: &mut Tape, rec: &mut Rec) -> CaseResult {
     Ok(())
 }
 
+
+// ---------------------------------------------------------------------------------------------
+// packets built through the public constructors
+// ---------------------------------------------------------------------------------------------
+
+fn api_built_packet(t: &mut Tape) -> Result<(Packet, String), String> {
+    use pgp::composed::RawSessionKey;
+    use pgp::crypto::aead::ChunkSize;
+    use pgp::crypto::public_key::PublicKeyAlgorithm;
+    use pgp::types::PacketHeaderVersion;
+    use pgp::packet::{LiteralData, OnePassSignature, Padding, PublicKeyEncryptedSessionKey, SignatureType, SymEncryptedProtectedData, SymKeyEncryptedSessionKey, UserAttribute, UserId};
+    use pgp::types::KeyId;
+    let mut rng = ChaCha8Rng::from_seed(t.seed32());
+    let e = |e: pgp::errors::Error| e.to_string();
+    let sig_types = [SignatureType::Binary, SignatureType::Text, SignatureType::Standalone, SignatureType::CertGeneric, SignatureType::SubkeyBinding, SignatureType::Timestamp];
+    let pv = if t.chance(40) { PacketHeaderVersion::Old } else { PacketHeaderVersion::New };
+    Ok(match t.below(12) {
+        0 => {
+            let name = { let n = *t.pick(&[0usize, 1, 8, 200, 255]); expand(t.u64(), n) };
+            let n = *t.pick(&[0usize, 1, 100, 191, 192, 8383, 8384, 70_000]);
+            let data = expand(t.u64(), n);
+            (Packet::from(LiteralData::from_bytes(name.clone(), data.into()).map_err(e)?), format!("LiteralData::from_bytes(name {} bytes, {n} data bytes)", name.len()))
+        }
+        1 => {
+            let text = ["", "line\n", "a\r\nb\rc\n", "ü€\n\n", "no newline"][t.below(5)].repeat(t.range(1, 40));
+            (Packet::from(LiteralData::from_str("näme.txt", &text).map_err(e)?), format!("LiteralData::from_str({} bytes)", text.len()))
+        }
+        2 => {
+            let typ = *t.pick(&sig_types);
+            let p = OnePassSignature::v3(typ, HashAlgorithm::from(t.u8()), PublicKeyAlgorithm::from(t.u8()), KeyId::from(<[u8; 8]>::try_from(&expand(t.u64(), 8)[..]).expect("8")));
+            (Packet::from(p), "OnePassSignature::v3".into())
+        }
+        3 => {
+            let typ = *t.pick(&sig_types);
+            let hash = *t.pick(&[HashAlgorithm::Sha256, HashAlgorithm::Sha384, HashAlgorithm::Sha512, HashAlgorithm::Sha3_256, HashAlgorithm::Sha3_512, HashAlgorithm::Sha224]);
+            let salt_len = if t.chance(200) { hash.salt_len().unwrap_or(16) } else { t.range(0, 40) };
+            let p = OnePassSignature::v6(typ, hash, PublicKeyAlgorithm::from(t.u8()), expand(t.u64(), salt_len), <[u8; 32]>::try_from(&expand(t.u64(), 32)[..]).expect("32"));
+            (Packet::from(p), format!("OnePassSignature::v6 ({hash:?}, salt {salt_len})"))
+        }
+        4 | 5 => {
+            let kind = *t.pick(zoo::ALL_RECIPIENTS);
+            let z = zoo::get(kind);
+            let sub = &z.public.public_subkeys[0];
+            let alg = *t.pick(&[SymmetricKeyAlgorithm::AES128, SymmetricKeyAlgorithm::AES192, SymmetricKeyAlgorithm::AES256, SymmetricKeyAlgorithm::Camellia256, SymmetricKeyAlgorithm::TripleDES]);
+            let sk = RawSessionKey::from(&expand(t.u64(), alg.key_size())[..]);
+            if t.bool() || kind.is_v6() && t.bool() {
+                (Packet::from(PublicKeyEncryptedSessionKey::from_session_key_v6(&mut rng, &sk, sub).map_err(e)?), format!("PublicKeyEncryptedSessionKey::from_session_key_v6 to {kind:?}"))
+            } else {
+                (Packet::from(PublicKeyEncryptedSessionKey::from_session_key_v3(&mut rng, &sk, alg, sub).map_err(e)?), format!("PublicKeyEncryptedSessionKey::from_session_key_v3 to {kind:?} ({alg:?})"))
+            }
+        }
+        6 => {
+            let alg = *t.pick(&[SymmetricKeyAlgorithm::AES128, SymmetricKeyAlgorithm::AES256, SymmetricKeyAlgorithm::Twofish, SymmetricKeyAlgorithm::CAST5]);
+            let sk = RawSessionKey::from(&expand(t.u64(), alg.key_size())[..]);
+            let pw = Password::from(&expand(t.u64(), t.range(0, 40))[..]);
+            let s2k = match t.below(3) {
+                0 => StringToKey::new_iterated(&mut rng, HashAlgorithm::Sha256, t.u8()),
+                1 => StringToKey::Salted { hash_alg: HashAlgorithm::Sha512, salt: [5; 8] },
+                _ => StringToKey::new_argon2(&mut rng, 1, 1, 5),
+            };
+            if t.bool() {
+                (Packet::from(SymKeyEncryptedSessionKey::encrypt_v4(&pw, &sk, s2k.clone(), alg).map_err(e)?), format!("SymKeyEncryptedSessionKey::encrypt_v4 ({alg:?}, {s2k:?})"))
+            } else {
+                let aead = *t.pick(&[AeadAlgorithm::Eax, AeadAlgorithm::Ocb, AeadAlgorithm::Gcm]);
+                let alg = *t.pick(&[SymmetricKeyAlgorithm::AES128, SymmetricKeyAlgorithm::AES192, SymmetricKeyAlgorithm::AES256]);
+                let sk = RawSessionKey::from(&expand(t.u64(), alg.key_size())[..]);
+                (Packet::from(SymKeyEncryptedSessionKey::encrypt_v6(&mut rng, &pw, &sk, s2k.clone(), alg, aead).map_err(e)?), format!("SymKeyEncryptedSessionKey::encrypt_v6 ({alg:?}, {aead:?}, {s2k:?})"))
+            }
+        }
+        7 => {
+            let alg = *t.pick(&[SymmetricKeyAlgorithm::AES128, SymmetricKeyAlgorithm::AES256, SymmetricKeyAlgorithm::Blowfish, SymmetricKeyAlgorithm::Camellia192]);
+            let n = *t.pick(&[0usize, 1, 15, 16, 17, 189, 190, 8000, 9000]);
+            let key = expand(t.u64(), alg.key_size());
+            (Packet::from(SymEncryptedProtectedData::encrypt_seipdv1(&mut rng, alg, &key, &expand(t.u64(), n)).map_err(e)?), format!("SymEncryptedProtectedData::encrypt_seipdv1 ({alg:?}, {n} bytes)"))
+        }
+        8 => {
+            let alg = *t.pick(&[SymmetricKeyAlgorithm::AES128, SymmetricKeyAlgorithm::AES192, SymmetricKeyAlgorithm::AES256]);
+            let aead = *t.pick(&[AeadAlgorithm::Eax, AeadAlgorithm::Ocb, AeadAlgorithm::Gcm]);
+            let cs = *t.pick(&[ChunkSize::C64B, ChunkSize::C128B, ChunkSize::C4KiB]);
+            let n = *t.pick(&[0usize, 1, 63, 64, 65, 127, 128, 129, 150, 4095, 4096, 4097, 8191, 8192, 9000]);
+            let key = expand(t.u64(), alg.key_size());
+            (Packet::from(SymEncryptedProtectedData::encrypt_seipdv2(&mut rng, alg, aead, cs, &key, &expand(t.u64(), n)).map_err(e)?), format!("SymEncryptedProtectedData::encrypt_seipdv2 ({alg:?}, {aead:?}, {cs:?}, {n} bytes)"))
+        }
+        9 => {
+            let s = ["", "Alice <alice@example.org>", "ü", "x"][t.below(4)].repeat(*t.pick(&[1usize, 1, 50, 200, 3000]));
+            (Packet::from(UserId::from_str(pv, &s).map_err(e)?), format!("UserId::from_str({pv:?}, {} bytes)", s.len()))
+        }
+        10 => {
+            let n = *t.pick(&[0usize, 1, 170, 174, 175, 176, 177, 16000, 16302, 16303, 16304, 17000]);
+            (Packet::from(UserAttribute::new_image(expand(t.u64(), n).into()).map_err(e)?), format!("UserAttribute::new_image({n} bytes)"))
+        }
+        _ => {
+            let n = *t.pick(&[0usize, 1, 191, 192, 8383, 8384, 65535, 65536]);
+            (Packet::from(Padding::new(&mut rng, pv, n).map_err(e)?), format!("Padding::new({pv:?}, {n})"))
+        }
+    })
+}
+
+fn api_built_packet_case(t: &mut Tape, rec: &mut Rec) -> CaseResult {
+    let (p, what) = match api_built_packet(t) {
+        Ok(x) => x,
+        Err(e) => {
+            // a constructor refusing its arguments builds nothing
+            rec.label("api-packet:refused-by-constructor");
+            rec.describe(|| e.clone());
+            return Ok(());
+        }
+    };
+    let name = what.split(['(', ' ']).next().unwrap_or("?").to_string();
+    rec.label(format!("api-packet:{name}"));
+    rec.nontrivial(what.clone());
+    rec.describe(|| what.clone());
+    let body = packet_body(&p).map_err(|e| crate::engine::Fail { sig: "C05:api-built-packet-fails-to-serialize".into(), detail: format!("{what}: {e}") })?;
+    if body.1 != body.0.len() {
+        return fail("C05:body-write-len-differs-from-bytes-written:api-built-packet", format!("{what}: write_len {} but {} bytes written", body.1, body.0.len()));
+    }
+    let (w, ann) = packet_with_header(&p).map_err(|e| crate::engine::Fail { sig: "C05:api-built-packet-fails-to-serialize".into(), detail: format!("{what}: {e}") })?;
+    if w.len() != ann {
+        return fail("C05:write-len-with-header-differs-from-bytes-written:api-built-packet", format!("{what}: announced {ann}, written {}", w.len()));
+    }
+    match wire::split_packets(&w) {
+        Ok(ps) if ps.len() == 1 && ps[0].body == body.0 && ps[0].tag == tag_of(&p) => {}
+        Ok(ps) => return fail("C05:api-built-packet-header-does-not-match-body", format!("{what}: de-framer sees {} packet(s), first body {} bytes, serialized body {} bytes", ps.len(), ps.first().map_or(0, |p| p.body.len()), body.0.len())),
+        Err(e) => return fail("C05:api-built-packet-header-does-not-match-body", format!("{what}: {e}")),
+    }
+    match parse_one(&w) {
+        Ok(p2) => {
+            let mut w2 = vec![];
+            let _ = pgp::packet::PacketTrait::to_writer_with_header(&p2, &mut w2);
+            if w2 != w {
+                return fail("C05:api-built-packet-reencoded-differently", format!("{what}: {} bytes written, {} after parse and re-serialization", w.len(), w2.len()));
+            }
+            if p2 != p {
+                return fail("C05:reparsed-value-differs:api-built-packet", format!("{what}: the packet parsed back from its own serialization is not equal to the packet that was serialized"));
+            }
+        }
+        Err(e) => return fail("C05:own-serialization-rejected", format!("{what}: {e}")),
+    }
+    Ok(())
+}
+
 pub fn run(ctx: &Ctx) {
-    ctx.set_rule("generated: packet bodies produced field by field by the harness' own RFC 9580 encoder (signatures v3/v4/v6 with all subpacket types incl. critical/unknown/long/embedded, SKESK v4/v5/v6, PKESK v3/v6, OPS v3/v6, literal/compressed/SEIPD/SED/marker/padding/trust/user id/user attribute, public and secret (sub)keys of all zoo algorithms with every S2K usage/type/cipher) under canonical new-format or legacy headers, every one-octet id drawn from the listed values or 0..255; oracle on every accepted packet: re-serialization identical to the input, write_len == bytes written (packet, body, with header), header de-frames to exactly the body, parse(serialize(v)) == v; API group: zoo certificates (public/secret/locked), set_password_with_s2k/remove_password, Subpacket::regular over multi-byte strings, unhashed subpacket push/insert/remove, detached signatures, re-framed literal packets; api-subpacket-values: every SubpacketData variant built through constructors and setters (KeyFlags/Features from default or parsed 0..3 octets then any setter sequence, preference lists of arbitrary ids and lengths, notations, revocation keys, fingerprints, experimental/other ids, ...) carried in the hashed or unhashed area of a freshly made v4/v6 signature: subpacket and packet write_len == bytes written, header de-frames, parse(serialize(v)) == v, identical re-encoding, still verifies; non-trivial = packet accepted by the parser / API object built; distinct = (tag, body length, description)");
+    ctx.set_rule("generated: packet bodies produced field by field by the harness' own RFC 9580 encoder (signatures v3/v4/v6 with all subpacket types incl. critical/unknown/long/embedded, SKESK v4/v5/v6, PKESK v3/v6, OPS v3/v6, literal/compressed/SEIPD/SED/marker/padding/trust/user id/user attribute, public and secret (sub)keys of all zoo algorithms with every S2K usage/type/cipher) under canonical new-format or legacy headers, every one-octet id drawn from the listed values or 0..255; oracle on every accepted packet: re-serialization identical to the input, write_len == bytes written (packet, body, with header), header de-frames to exactly the body, parse(serialize(v)) == v; API group: zoo certificates (public/secret/locked), set_password_with_s2k/remove_password, Subpacket::regular over multi-byte strings, unhashed subpacket push/insert/remove, detached signatures, re-framed literal packets; api-built-packets: LiteralData::from_bytes/from_str, OnePassSignature::v3/v6, PublicKeyEncryptedSessionKey::from_session_key_v3/v6 to every zoo recipient, SymKeyEncryptedSessionKey::encrypt_v4/v6, SymEncryptedProtectedData::encrypt_seipdv1/v2 at chunk edges, UserId::from_str, UserAttribute::new_image at length-class edges, Padding::new, under new and legacy headers - same oracle; api-subpacket-values: every SubpacketData variant built through constructors and setters (KeyFlags/Features from default or parsed 0..3 octets then any setter sequence, preference lists of arbitrary ids and lengths, notations, revocation keys, fingerprints, experimental/other ids, ...) carried in the hashed or unhashed area of a freshly made v4/v6 signature: subpacket and packet write_len == bytes written, header de-frames, parse(serialize(v)) == v, identical re-encoding, still verifies; non-trivial = packet accepted by the parser / API object built; distinct = (tag, body length, description)");
     ctx.assume("the harness' encoder emits only canonical encodings (minimal lengths, canonical MPIs); inputs rPGP rejects are counted, not judged");
     zoo::warm(zoo::ALL);
     let keys = harvest_keys();
@@ -762,4 +903,6 @@ pub fn run(ctx: &Ctx) {
     ctx.group("api-objects", Source::Random { n, tape_len: 120 }, api_case);
     let n = ctx.tier.pick(20_000u64, 400_000);
     ctx.group("api-subpacket-values", Source::Random { n, tape_len: 260 }, api_subpacket_case);
+    let n = ctx.tier.pick(6_000u64, 150_000);
+    ctx.group("api-built-packets", Source::Random { n, tape_len: 200 }, api_built_packet_case);
 }
